@@ -547,4 +547,79 @@ def apiSkeleton : List (String × List (String × String)) :=
 
 theorem api_skeleton_agrees : ∀ e ∈ apiSkeleton, ApiSkel.skeleton e.1 = e.2 := by decide
 
+/-! ## several wormholes in one process
+
+The quantifier of the property ranges over pairs of wormholes; nothing in it says that a process holds only one of
+them.  In the model every wormhole is a `Client` value of its own, so what one of them does cannot reach another one.
+On the code side this rests on `WV.Props.Common.instances_do_not_share_state` (no container created once per class /
+attrs default and mutated through `self`) and on the differential runs of the process lines `proc` / `at` against
+several real wormholes created in one process. -/
+
+/-- **process_isolation.**  The driver's `at <i> <line>` — any operation of the line protocol on wormhole `i` of a
+    process — leaves every other wormhole of the process exactly as it was (state, buffers, queues, log), and the
+    process keeps its size; on wormhole `i` it is precisely the single-client `step`. -/
+theorem process_isolation (many : List Client) (i : Nat) (line : String) :
+    (∀ j, j ≠ i → (procAt many i line).1[j]? = many[j]?) ∧
+    (procAt many i line).1.length = many.length ∧
+    (∀ c, many[i]? = some c → (procAt many i line).1[i]? = some (step c line).1 ∧ (procAt many i line).2 = (step c line).2) := by
+  refine ⟨?_, ?_, ?_⟩
+  · intro j hj
+    unfold procAt
+    cases h : many[i]? with
+    | none => rfl
+    | some c => simp only []; exact List.getElem?_set_ne (Ne.symm hj)
+  · unfold procAt
+    cases h : many[i]? with
+    | none => rfl
+    | some c => simp
+  · intro c hc
+    have hlt : i < many.length := by
+      rcases Nat.lt_or_ge i many.length with h | h
+      · exact h
+      · rw [List.getElem?_eq_none h] at hc; cases hc
+    unfold procAt
+    rw [hc]
+    exact ⟨by simp [List.getElem?_set_self hlt], rfl⟩
+
+/-- the hypotheses are satisfiable: a process of two wormholes, an operation on wormhole 0 -/
+example : (procAt [clientInit "aa", clientInit "bb"] 0 "boss got_code").1[1]? = [clientInit "aa", clientInit "bb"][1]? :=
+  (process_isolation _ 0 _).1 1 (by decide)
+
+/-- **e2e_prefix_process.**  A process with any number of wormhole pairs (pair `p` = clients with sides
+    `(sides[p]).1 ≠ (sides[p]).2`, each pair with its own mailbox on the server), under the ideal-crypto hypothesis, for
+    ALL process schedules `acts` — the actions of `e2e_prefix_clients` (application calls, connection losses, stores,
+    deliveries in any order, duplicates, replays), each tagged with the pair it happens in, interleaved across the
+    pairs in any way: in every pair, what B's application has received is exactly the first `_next_rx_phase`
+    plaintexts A's application passed to `send_message` (a prefix: nothing of another pair, nothing of its own, no
+    gap, no duplicate), and symmetrically; likewise for the values of the `get_message()` callbacks. -/
+theorem e2e_prefix_process (C : Crypto) (hC : C.Ideal) (sides : List (String × String))
+    (hne : ∀ e ∈ sides, e.1 ≠ e.2) (acts : List (Nat × SAct)) (p : Nat) (s : Sys)
+    (hs : (procRun C (sides.map (fun e => sysInit e.1 e.2)) acts)[p]? = some s) :
+    (receivedOf s.b.log = s.sentA.take s.b.boss.rx.next ∧ receivedOf s.a.log = s.sentB.take s.a.boss.rx.next) ∧
+    (receivedOf s.b.log <+: s.sentA ∧ receivedOf s.a.log <+: s.sentB) ∧
+    (okVals s.b.obs.fired <+: s.sentA ∧ okVals s.a.obs.fired <+: s.sentB) := by
+  rw [procRun_proj, List.getElem?_map] at hs
+  cases he : sides[p]? with
+  | none => rw [he] at hs; cases hs
+  | some e =>
+    rw [he] at hs
+    simp only [Option.map_some, Option.some.injEq] at hs
+    subst hs
+    exact e2e_prefix_clients C hC e.1 e.2 (hne e (List.mem_of_getElem? he)) (actsOf p acts)
+
+/-- … and the process never gains or loses a pair -/
+theorem process_keeps_its_pairs (C : Crypto) (ps : List Sys) (acts : List (Nat × SAct)) :
+    (procRun C ps acts).length = ps.length := procRun_length C acts ps
+
+/-- two pairs, actions interleaved: pair 1's B parks phase 1 of its A while pair 0 runs `demoActs` — pair 0's B still
+    receives exactly what pair 0's A sent -/
+example :
+    let acts : List (Nat × SAct) := (demoSetup false ++ demoSetup true).map (fun a => (1, a)) ++
+      [(1, .op false (.send [1])), (1, .op false (.send [2])), (1, .store false 2), (1, .store false 3),
+       (1, .store true 2), (1, .store true 3), (1, .deliver true 0), (1, .deliver true 1), (1, .deliver false 2),
+       (1, .deliver false 3), (1, .store false 8), (1, .deliver true 4)] ++ demoActs.map (fun a => (0, a)) ++
+      [(1, .store false 7), (1, .deliver true 5)]
+    let ps := procRun plainCrypto [sysInit "aa" "bb", sysInit "cc" "dd"] acts
+    ps.map (fun s => receivedOf s.b.log) = [[[7], [8], [9], [10]], [[1], [2]]] := by decide +kernel
+
 end WV.Props.C03
